@@ -2,6 +2,7 @@ package props
 
 import (
 	"fmt"
+	"os"
 	"path/filepath"
 	"strings"
 	"time"
@@ -256,6 +257,7 @@ func runC01(c *Ctx) error {
 			}
 		}
 	}
+	c01FixedLists(c, tree)
 	c01SharedConfiguration(c, tree)
 	return nil
 }
@@ -336,5 +338,56 @@ func c01SharedConfiguration(c *Ctx, tree *SrcTree) {
 					What: fmt.Sprintf("the payload of the %s package of a configuration that was asked for %v before differs from what the contents denote: %s", f, order[:step], cl), Input: in})
 			}
 		}
+	}
+}
+
+// c01FixedLists: content lists that need a particular shape – a declared directory at a path other packages own, listed
+// before a tree that passes through it (everything beneath it is still shipped); and every list once more with
+// SOURCE_DATE_EPOCH exported while the configuration declares its own mtime (the declared one is the package's).
+func c01FixedLists(c *Ctx, t *SrcTree) {
+	fam := c.Rep.Family("fixed-lists", "exhaustive: a declared directory at a file-system-owned path ({/var/log, /usr/lib/.build-id, /etc/logrotate.d}) before and after a tree laid over its parent, and a plain list, each with and without SOURCE_DATE_EPOCH=1500000000 exported next to a declared mtime of 1700000000, through nfpm.WithDefaults x 5 formats: payload decoded and compared with what the contents denote; non-trivial = more than one payload member")
+	fam.Exhaustive = true
+	fi := &wire.FileInfo{Mode: 0o750, Owner: "demo", Group: "demo", MTime: wire.ZeroTime}
+	tool := filepath.Join(t.Root, "bin/tool")
+	lists := [][]wire.Content{
+		{{Dst: "/var/log", Type: "dir", Info: fi}, {Src: filepath.Join(t.Root, "fsroot/var"), Dst: "/var", Type: "tree"}},
+		{{Src: filepath.Join(t.Root, "fsroot/var"), Dst: "/var", Type: "tree"}, {Dst: "/var/lib/logrotate", Type: "dir", Info: fi}},
+		{{Dst: "/usr/lib/.build-id", Type: "dir", Info: fi}, {Src: filepath.Join(t.Root, "fsroot/usr"), Dst: "/usr", Type: "tree"}},
+		{{Dst: "/etc/logrotate.d", Type: "dir"}, {Src: filepath.Join(t.Root, "fsroot/etc"), Dst: "/etc", Type: "tree"}, {Src: tool, Dst: "/usr/bin/tool"}},
+		{{Src: tool, Dst: "/usr/bin/tool"}, {Dst: "/var/lib/demo", Type: "dir", Info: fi}, {Src: "/usr/bin/tool", Dst: "/usr/bin/t", Type: "symlink"}},
+	}
+	for _, sde := range []string{"", "1500000000"} {
+		if sde != "" {
+			os.Setenv("SOURCE_DATE_EPOCH", sde)
+		}
+		for _, raw := range lists {
+			s := &PkgSpec{Raw: raw, Umask: 0o022, MTime: 1700000000, Mutate: func(info *nfpm.Info) { nfpm.WithDefaults(info) },
+				Describe: map[string]any{"SOURCE_DATE_EPOCH": sde, "mtime": "declared: 1700000000"}}
+			for _, f := range Formats {
+				dec, plan, ok := payloadCase(c, fam, "fixed-lists", s, f)
+				if !ok {
+					continue
+				}
+				ans, err := c.D.Ask(fmt.Sprintf("c01check %s %s %s", f, wire.EncContentsOut(plan), wire.EncMembers(dec.Members)))
+				if err != nil {
+					break
+				}
+				in := s.Input()
+				in["format"] = f
+				if strings.HasPrefix(ans, "violated ") {
+					cl := strings.TrimPrefix(ans, "violated ")
+					c.Rep.Find(report.Finding{Property: "C01", Family: "fixed-lists", Shape: f + ":" + strings.SplitN(cl, "_", 2)[0], What: "payload of the " + f + " package differs from what the contents denote: " + cl, Input: in})
+				}
+				// the declared package mtime is the time of every entry that has none of its own – whatever the environment says
+				for _, m := range dec.Members {
+					if m.InPayload && (m.Kind == '5' || m.Kind == '2') && m.MTime != 0 && m.MTime != 1700000000 && f != "apk" && f != "archlinux" {
+						c.Rep.Find(report.Finding{Property: "C01", Family: "fixed-lists", Shape: f + ":declared-package-mtime-not-used",
+							What: fmt.Sprintf("member %s carries time %d; the configuration declares mtime 1700000000 (SOURCE_DATE_EPOCH=%q)", m.Name, m.MTime, sde), Input: in})
+						break
+					}
+				}
+			}
+		}
+		os.Unsetenv("SOURCE_DATE_EPOCH")
 	}
 }
